@@ -176,6 +176,9 @@ func (g *sgen) keywordsOf(group string) []string {
 func (g *sgen) schema(depth int, parentGroup string, curDef int, inPlace bool, isRoot bool) any {
 	r := g.r
 	if !isRoot && r.IntN(8) == 0 {
+		if r.IntN(4) == 0 {
+			return map[string]any{} // the empty schema object: same meaning as true, different representation
+		}
 		return r.IntN(5) < 3
 	}
 	if depth >= g.o.MaxDepth {
